@@ -75,7 +75,7 @@ def _split_prints(out):
 
 
 def run(module, cfg=None, *, workers=None, simulate=None, depth=None, seed=None, dump=False, env=None,
-        coverage=False, timeout=3600, deadlock=False, extra=(), jvm=(), tag=None, dfs=False):
+        coverage=False, timeout=3600, deadlock=False, extra=(), jvm=(), tag=None, dfs=False, heap='12g'):
     """module: path relative to specs/ (e.g. 'pauli/MC_Pauli.tla').  cfg: path relative to specs/ or absolute,
     default = module with .cfg.  simulate: dict(num=..., file=True) for -simulate."""
     mod = module if os.path.isabs(module) else os.path.join(SPECS, module)
@@ -87,7 +87,7 @@ def run(module, cfg=None, *, workers=None, simulate=None, depth=None, seed=None,
     sc = os.path.join(scratch(), tag + '-%d' % int(time.time() * 1000))
     os.makedirs(sc, exist_ok=True)
     res = TLCResult()
-    cmd = ['java', '-XX:+UseParallelGC', '-Xmx12g', '-Xss256m', '-DTLA-Library=' + LIBPATH]
+    cmd = ['java', '-XX:+UseParallelGC', '-Xmx' + heap, '-Xss256m', '-DTLA-Library=' + LIBPATH]
     if dfs:
         cmd.append('-Dtlc2.tool.queue.IStateQueue=StateDeque')
     cmd += list(jvm)
@@ -204,7 +204,8 @@ def validate_payloads(module, cfg, payloads, timeout=3600, extra_env=None):
         env = {'TRACE_FILE': path}
         if extra_env:
             env.update(extra_env)
-        r = run(module, cfg, workers=1, env=env, timeout=timeout, tag='tv%d' % off)
+        # up to 16 of these run side by side: keep the heaps small enough for the machine (62 GB)
+        r = run(module, cfg, workers=1, env=env, timeout=timeout, tag='tv%d' % off, heap='3g')
         acc = None
         rej = []
         for v in r.prints:
